@@ -194,14 +194,23 @@ Print Assumptions c09_run_sched_bracket.
 
 (* Every interleaving (calls and message appenders): every job that ends is `completed` (status 0; the error path is
    unreachable without an I/O fault), and its created list is, in ascending to_seq order, exactly the plan of the
-   job_spawned frame of the same job — each entry naming a checkpoint frame of the stream with that to_seq and
-   to_message_id (`ended_ok`).  `job_consistent l` says this of every job_ended frame of l. *)
+   job_spawned frame of the same job — every plan entry a message (seq, id) of the thread, every created entry naming
+   a checkpoint frame of the stream with that to_seq and to_message_id (`ended_ok`).  `job_consistent l` says this
+   of every job_ended frame of l. *)
 Theorem c09_concurrent_jobs_create_announced_plan : forall (K : consts) (s : st) (calls : list aspec) (s' : st) (acts' : list astate),
   valid (log s) -> job_consistent (log s) ->
   sys_steps K (s, map start_of calls) (s', acts') ->
   job_consistent (log s').
 Proof. exact concurrent_jobs_create_announced. Qed.
 Print Assumptions c09_concurrent_jobs_create_announced_plan.
+
+(* … and every checkpoint frame appended during the race references a readable summary artifact whose coverage is
+   the frame's (to_seq, to_message_id) *)
+Theorem c09_concurrent_checkpoints_covered : forall (K : consts) (s : st) (calls : list aspec) (s' : st) (acts' : list astate),
+  sys_steps K (s, map start_of calls) (s', acts') ->
+  exists new, log s' = log s ++ new /\ good_ckpts s' new.
+Proof. exact concurrent_ckpts_covered. Qed.
+Print Assumptions c09_concurrent_checkpoints_covered.
 
 Example c09_demo_concurrent_jobs :
   (valid (log mm_state) /\ job_consistent (log mm_state))
